@@ -1,8 +1,9 @@
 import Eru.Cluster.Steps
 import Eru.Cluster.Remove
 /-
-Cluster model: `ReallocResource` (realloc.go, after the D11 fix: the metadata update is part
-of the then-step, so its failure triggers the rollback of the committed usage delta).
+Cluster model: `ReallocResource` (realloc.go, after the D11 fix be32499 + d840e09: the metadata update is part
+of the then-step, so its failure triggers the rollback of the committed usage delta; the rollback writes
+the original metadata back only if the new metadata had been written).
 The resource layer's answer (`delta`, `newRes`) is an argument; `none` = the plugin refuses
 (nothing committed).
 -/
@@ -12,13 +13,17 @@ variable {R : Type} [ResAlg R]
 def doReallocOnNode (w : Wl R) (answer : Option (R × R)) : M R Unit :=
   match answer with
   | none => do readStep "pluginRealloc" w.node; refuse
-  | some (delta, newRes) =>
+  | some (delta, newRes) => do
+    setFlag false                                   -- metaUpdated := false
     txn (step "pluginRealloc" w.node (addUsage w.node delta))
         (do step "storeUpdateWorkload" w.node (setWlRes w.id newRes)
+            setFlag true                            -- metaUpdated = true
             readStep "engineUpdate" w.node)
         (onThenFailure (do
             step "pluginRollbackRealloc" w.node (addUsage w.node (-delta))
-            step "storeUpdateWorkload" w.node (setWlRes w.id w.res)))
+            let ms ← getMS
+            -- the original metadata is written back only if the new one had been written (/repo d840e09)
+            if ms.flag then step "storeUpdateWorkload" w.node (setWlRes w.id w.res) else pure ()))
 
 /-- `node`: the node the id was last seen on (address of the reads). -/
 def realloc (node : String) (id : Nat) (answer : Option (R × R)) : M R Unit := do
